@@ -327,7 +327,10 @@ func Generate(r *hlib.Rng, class string, mtime int64) *Gen {
 				g.TXT(nm, false, r.Bytes(20+r.Intn(60), []byte("abcdefghijklmnopqrstuvwxyz0123456789")), nil)
 			}
 		}
-		g.TXT(z.Child("huge"), false, bytes.Repeat([]byte("x"), 1500), nil)
+		g.TXT(z.Child("huge"), false, bytes.Repeat([]byte("x"), 300), nil)
+		for j := 0; j < 24; j++ { // a record set beyond 1232 bytes
+			g.TXT(z.Child("t20"), false, r.Bytes(50+r.Intn(30), []byte("abcdefghijklmnopqrstuvwxyz")), nil)
+		}
 		for j := 0; j < 12; j++ {
 			g.MX(z.Child("mail"), z.Child(fmt.Sprintf("mx%d", j)), "", fmt.Sprintf("203.0.113.%d", 1+j), nil)
 		}
